@@ -29,7 +29,10 @@ RULE = ('asyncssh in either role talks to RefPeer, an independent SSH '
         'echo session with payload lengths 0..max packet incl. block-size '
         'boundaries, a global request, and seeded segmentation in both '
         'directions (1-byte chunks, splits inside length/tag, chunks '
-        'spanning packets). Oracle: every packet asyncssh emits decodes '
+        'spanning packets); in a quarter of the runs a re-exchange during '
+        'authentication (RefPeer starts it behind its password request and '
+        'the application answers while it runs, or RefPeer as server runs '
+        'one before USERAUTH_SUCCESS). Oracle: every packet asyncssh emits decodes '
         'under RefPeer\'s own keys (length, alignment, padding >= 4, '
         'MAC/tag for the expected sequence number, inflates); the handshake '
         'completes; the payload sequence RefPeer decodes equals the '
@@ -56,7 +59,8 @@ STUB = ['event loop + clock', 'TCP', 'executor', 'OS randomness',
         'RefPeer (independent SSH implementation) as the other endpoint']
 PROBES = ['role_server', 'role_client', 'one_byte_reads', 'handshake_ok',
           'cmp_zlib', 'etm', 'aead', 'cbc', 'stream_cipher', 'gex',
-          'global_request', 'zero_len_payload', 'maxpkt_payload']
+          'global_request', 'zero_len_payload', 'maxpkt_payload',
+          'rekey_during_auth']
 
 SIZES = [0, 1, 2, 3, 4, 5, 6, 7, 8, 9, 11, 12, 13, 15, 16, 17, 23, 24, 31,
          32, 33, 63, 64, 65, 127, 128, 255, 256, 257, 1000, 4096, 16383,
@@ -79,6 +83,12 @@ def gen_plan(rng):
                   for _ in range(rng.between(1, 10))],
         'global_request': rng.chance(40),
         'stderr': rng.chance(30),
+        # a re-exchange started by RefPeer while its authentication request
+        # is being looked at (the server application answers a drawn number
+        # of scheduler steps after the server has joined the exchange):
+        # delayed compression starts with the packet after USERAUTH_SUCCESS,
+        # wherever that ends up
+        'auth_rekey': {'delay': rng.below(9)} if rng.chance(25) else None,
     }
 
 
@@ -89,7 +99,9 @@ def valid_plan(plan):
             and plan['mac'] in codec.MACS and plan['cmp'] in CMPS and \
             plan['hostkey'] in HOSTKEYS and \
             len(plan['sizes']) > 0 and \
-            all(0 <= s <= 32768 for s in plan['sizes'])
+            all(0 <= s <= 32768 for s in plan['sizes']) and \
+            (plan.get('auth_rekey') is None or
+             0 <= plan['auth_rekey']['delay'] <= 40)
     except (KeyError, TypeError):
         return False
 
@@ -118,6 +130,31 @@ class EchoServer(RecServer):
         return EchoSession(self.world)
 
 
+class SlowAuthEchoServer(EchoServer):
+    """Password authentication whose answer takes a drawn number of
+       scheduler steps"""
+
+    delay = 0
+
+    def begin_auth(self, username):
+        return True
+
+    def password_auth_supported(self):
+        return True
+
+    async def validate_password(self, username, password):
+        # (the answer must not cross the client's KEXINIT: a client which
+        # starts a re-exchange cannot know whether what it sends next is
+        # expected compressed if USERAUTH_SUCCESS is already on its way --
+        # that race is the protocol's, not the implementation's)
+        await self.world.gate('server-in-kex')
+
+        for _ in range(self.delay):
+            await self.world.sim.pause('validate')
+
+        return password == 'pw'
+
+
 def run_plan(plan, sched_seed=None, sched_replay=None):
     world = World(plan, sched_seed, sched_replay)
     sim = world.sim
@@ -139,11 +176,34 @@ def run_plan(plan, sched_seed=None, sched_replay=None):
         out['handshake'] = True
         peer.send(bytes([5]) + string(b'ssh-userauth'))
         await peer.expect(6)
-        peer.send(bytes([50]) + string(b'u') + string(b'ssh-connection') +
-                  string(b'none'))
+        early = []
+
+        if plan.get('auth_rekey'):
+            peer.send(bytes([50]) + string(b'u') + string(b'ssh-connection') +
+                      string(b'password') + boolean(False) + string(b'pw'))
+
+            # a re-exchange right behind the request: what the server sent
+            # before it saw our KEXINIT comes first
+            peer.send_kexinit_now()
+
+            while True:
+                p = await peer.recv()
+
+                if p[0] == 20:
+                    break
+
+                early.append(p)
+
+            world.open_gate('server-in-kex')
+
+            await peer.handshake(peer_kexinit=p, already_sent=True)
+            sim.probes['rekey_during_auth'] += 1
+        else:
+            peer.send(bytes([50]) + string(b'u') + string(b'ssh-connection') +
+                      string(b'none'))
 
         while True:
-            p = await peer.recv()
+            p = early.pop(0) if early else await peer.recv()
 
             if p[0] == 52:
                 break
@@ -249,6 +309,11 @@ def run_plan(plan, sched_seed=None, sched_replay=None):
 
             raise PeerError('unexpected message %d before auth' % p[0])
 
+        if plan.get('auth_rekey'):
+            # the server starts a re-exchange before it answers
+            await peer.handshake()
+            sim.probes['rekey_during_auth'] += 1
+
         peer.send(bytes([52]))
         peer.authed = True
         chan = None
@@ -326,8 +391,16 @@ def run_plan(plan, sched_seed=None, sched_replay=None):
         hk = plan['hostkey']
 
         if role == 'server':
+            def server_factory():
+                if plan.get('auth_rekey'):
+                    srv = SlowAuthEchoServer(world)
+                    srv.delay = plan['auth_rekey']['delay']
+                    return srv
+
+                return EchoServer(world)
+
             acc = await asyncssh.listen(
-                '127.0.0.1', 22, server_factory=lambda: EchoServer(world),
+                '127.0.0.1', 22, server_factory=server_factory,
                 **server_opts(server_host_keys=[key(hk)], encoding=None,
                               **a_algs))
             peer = RefPeer(sim, 'client', strict=plan['strict'], rand=rand,
